@@ -28,7 +28,16 @@ OPS = [
     ("mark", "npm", "p"),
     ("mark", "npm", "nobody"),
     ("open",),
+    # a long version list (a package with hundreds of releases): the whole list is ONE transaction, whatever its length
+    ("replace", "npm", "big") + tuple(f"1.{i // 50}.{i % 50}" for i in range(250)),
 ]
+SENT = 99999          # a statement point no operation reaches: the operation completes
+
+
+def points_of(op):
+    if len(op) > 100:
+        return [1, 2, 3, 50, 100, 101, 102, 103, 150, 200, 201, 202, 203, 251, 252, 253]
+    return list(range(1, 12))
 
 
 def streams(ctx):
@@ -36,9 +45,8 @@ def streams(ctx):
     modes = ["abort", "fail"] if tier == "quick" else ["abort", "kill", "fail"]
     cases, groups = [], []
     for op in OPS:
-        npts = 12
         for mode in modes:
-            for n in list(range(1, npts)) + [99]:
+            for n in points_of(op) + [SENT]:
                 h = [vlib.line("c.reset", "T", "1000"), vlib.line("c.open", "0"), vlib.line("c.now", "100")]
                 h += [vlib.line(*s) for s in SETUP]
                 h += [vlib.line("c.now", "200"), vlib.line("c.dump")]
@@ -49,11 +57,11 @@ def streams(ctx):
                 h.append(vlib.line("c.dump"))
                 a = len(cases)
                 for i, l in enumerate(h):
-                    cases.append({"req": l, "tag": (op[0], op[1:3], mode, n) if i == len(h) - 2 else None})
+                    cases.append({"req": l, "tag": (op[0], op[1:3], len(op), mode, n) if i == len(h) - 2 else None})
                 groups.append((a, len(cases), op, mode, n))
     # schema creation on a FRESH file
     for mode in modes:
-        for n in list(range(1, 11)) + [99]:
+        for n in list(range(1, 11)) + [SENT]:
             h = [vlib.line("c.reset", "T", "1000")]
             h.append(vlib.line("crash.fail", str(n), "open") if mode == "fail" else vlib.line("crash.run", mode, str(n), "open"))
             h += [vlib.line("c.replace", "0", "npm", "p", "1.0.0"), vlib.line("c.claim", "0", "npm", "p"), vlib.line("c.mark", "0", "npm", "z"),
@@ -67,7 +75,7 @@ def streams(ctx):
         der = []
         after = {}
         for (a, b, op, mode, n) in groups:
-            if n == 99 and op[0] != "open-fresh":
+            if n == SENT and op[0] != "open-fresh":
                 after[(op, mode)] = gen_cache.canon(impl[b - 1])
         for (a, b, op, mode, n) in groups:
             if op[0] == "open-fresh":
